@@ -100,3 +100,47 @@ Theorem model_passes_spec :
                            c_threshold := t; c_coeffs := cs; c_obs := o |}) |} = true.
 Proof. exact Proofs.C03.model_passes_spec. Qed.
 Print Assumptions model_passes_spec.
+
+(* ---- call histories: recoveries made one after the other in ONE long-lived process ----
+   [run_history r st h] threads the process state through the calls of [h] (Model/C03.v: the
+   state carries nothing, bls.go writes no package-level variable). *)
+
+(* history independence: state unchanged, answers = the pure recovery mapped over the calls *)
+Theorem run_history_is_map :
+  forall r st h, run_history r st h = (st, map (run_rec r) h).
+Proof. exact Proofs.C03.run_history_is_map. Qed.
+Print Assumptions run_history_is_map.
+
+(* the main theorem along histories: whatever was recovered before ([pre], arbitrary calls —
+   other subsets, other thresholds, other polynomials, malformed lists) and whatever follows,
+   an admissible call returns the unique group signature / group public key *)
+Theorem history_recovers_unique :
+  forall r, prime r ->
+  forall st (pre post : list rec_case) (c : rec_case),
+  (forall s, In s (valid_shares (c_entries c)) ->
+     fst s < r /\ snd s mod r = eval (c_coeffs c) (fst s) mod r) ->
+  NoDup (map fst (valid_shares (c_entries c))) ->
+  Z.of_nat (length (c_coeffs c)) <= c_threshold c <= Z.of_nat (length (valid_shares (c_entries c))) ->
+  nth_error (snd (run_history r st (pre ++ c :: post))) (length pre)
+  = Some (Ok (nth 0 (c_coeffs c) 0 mod r)).
+Proof. exact Proofs.C03.history_recovers_unique. Qed.
+Print Assumptions history_recovers_unique.
+
+(* the executable history property of the correspondence check judges every call separately
+   and is sound ... *)
+Theorem spec_hist_sound :
+  forall r h, spec_hist r h = true ->
+  forall c, In c h ->
+  (forall s, In s (valid_shares (c_entries c)) ->
+     fst s < r /\ snd s mod r = eval (c_coeffs c) (fst s) mod r) ->
+  NoDup (map fst (valid_shares (c_entries c))) ->
+  Z.of_nat (length (c_coeffs c)) <= c_threshold c <= Z.of_nat (length (valid_shares (c_entries c))) ->
+  exists z, c_obs c = OPoint (Some z) true /\ z mod r = nth 0 (c_coeffs c) 0 mod r.
+Proof. exact Proofs.C03.spec_hist_sound. Qed.
+Print Assumptions spec_hist_sound.
+
+(* ... and holds of every history the model produces *)
+Theorem model_histories_pass_spec :
+  forall r, prime r -> forall h, spec_hist r (map (with_model_obs r) h) = true.
+Proof. exact Proofs.C03.model_histories_pass_spec. Qed.
+Print Assumptions model_histories_pass_spec.
